@@ -57,3 +57,26 @@ const VerifReadBufferSize = readBufferSize
 func VerifPacketReader(c net.Conn) *packets.Reader {
 	return packets.NewReader(newBufioReaderSize(c, readBufferSize))
 }
+
+// VerifLimiter exposes the packet id limiter for component-level exploration.
+type VerifLimiter struct{ pl *packetIDLimiter }
+
+func VerifNewLimiter(limit uint16) *VerifLimiter {
+	c := &client{}
+	c.newPacketIDLimiter(limit)
+	return &VerifLimiter{pl: c.pl}
+}
+
+func (l *VerifLimiter) Poll(max uint16) []uint16  { return l.pl.pollPacketIDs(max) }
+func (l *VerifLimiter) Release(id uint16)         { l.pl.release(id) }
+func (l *VerifLimiter) BatchRelease(ids []uint16) { l.pl.batchRelease(ids) }
+func (l *VerifLimiter) Close()                    { l.pl.close() }
+func (l *VerifLimiter) Used() uint16              { return l.pl.used }
+func (l *VerifLimiter) FreePid() uint16           { return l.pl.freePid }
+func (l *VerifLimiter) Locked(id uint16) bool     { return l.pl.lockedPid.Get(id) == 1 }
+func (l *VerifLimiter) SetFreePid(v uint16)       { l.pl.freePid = v }
+func (l *VerifLimiter) MarkUsed(id uint16) {
+	l.pl.lock()
+	l.pl.markUsedLocked(id)
+	l.pl.unlock()
+}
